@@ -48,6 +48,40 @@ func newWriterLoop(c *kit.Ctx, m *storeModel, w *pointWriter) *writerLoop {
 	// rule; the merge outcome itself is computed on values (wsym.go) and does not
 	// need them.
 	wl.anchor = w.Exec.Call
+	// delta: the uint32 local handed to the hash propagation entry
+	wl.hm = newHashModel(c, m)
+	for _, g := range []*kit.Func{w.F, w.Body} {
+		for _, call := range g.AllCalls(true) {
+			if cf := g.CalleeFunc(call); cf != nil && wl.hm.isEntry(cf) {
+				for _, a := range call.Args {
+					if id, ok := ast.Unparen(a).(*ast.Ident); ok && isUint32(g.Info().TypeOf(id)) {
+						if o, ok := kit.ObjOf(g.Info(), id).(*types.Var); ok && !o.IsField() {
+							wl.delta = o
+						}
+					}
+				}
+			}
+		}
+	}
+	if wl.delta == nil {
+		// not handed over as a plain local: the uint32 local that checksums are XORed into
+		for _, g := range []*kit.Func{w.F, w.Body} {
+			ast.Inspect(g.Body, func(n ast.Node) bool {
+				as, ok := n.(*ast.AssignStmt)
+				if !ok || as.Tok != token.XOR_ASSIGN || len(as.Lhs) != 1 || len(as.Rhs) != 1 {
+					return true
+				}
+				call, ok := ast.Unparen(as.Rhs[0]).(*ast.CallExpr)
+				if !ok || !kit.CallIs(g.Info(), call, dataPkg+".(Point).CRC", dataPkg+".(*Point).CRC") {
+					return true
+				}
+				if o, ok := kit.ObjOf(g.Info(), as.Lhs[0]).(*types.Var); ok && !o.IsField() && isUint32(o.Type()) {
+					wl.delta = o
+				}
+				return true
+			})
+		}
+	}
 	rs := f.EnclosingLoop(w.Exec.Call)
 	if rs == nil {
 		return wl
@@ -166,13 +200,6 @@ func newWriterLoop(c *kit.Ctx, m *storeModel, w *pointWriter) *writerLoop {
 			wl.searchAnchor = wl.inLoop
 		}
 	}
-	// delta: variable XOR-assigned with <x>.CRC() inside inLoop
-	ast.Inspect(wl.inLoop.Body, func(n ast.Node) bool {
-		if as, ok := n.(*ast.AssignStmt); ok && as.Tok == token.XOR_ASSIGN && len(as.Lhs) == 1 {
-			wl.delta = wl.obj(as.Lhs[0])
-		}
-		return true
-	})
 	_ = info
 	return wl
 }
